@@ -2,8 +2,8 @@
 //@ props C02 C03 C01
 //@ kind W
 //@ def quick NIN=5
-//@ def thorough NIN=8
-//@ cbmc all --unwind 11 --unwinding-assertions
+//@ def thorough NIN=10
+//@ cbmc all --unwind 13 --unwinding-assertions
 //@ entry h_scanEq
 //@ note W: complete for every character sequence of length <= NIN, both modes (inDecl: inside the XML/text declaration)
 //@ note reader abstraction (skipPastSpaces in both overloads, skippedChar) is a trusted stub over one entity (contracts/scanner_stubs2.inc); white space = production [3] S
